@@ -219,21 +219,29 @@ func (f *forger) lieCommit(kind string, h int64, arg int) (*types.Commit, string
 	case "commit-forged":
 		return signCommit(chainID, vals, prev, canon.Round, id, base, func(i int) crypto.PrivKey { return lib.Key(200 + i) }, allCommit), kind
 	case "commit-short":
-		// genuine signatures, but for-block power is at most 2/3
+		// genuine signatures, but for-block power is at most 2/3 - and as close to it as this validator set allows
+		// (best subset by exhaustive search: at most 2^n subsets of a handful of validators), so that the commit sits
+		// right on the boundary. The other validators either signed nil (genuinely) or are absent.
 		total := vals.TotalVotingPower()
-		keep := make([]bool, n)
-		var acc int64
-		for i, v := range vals.Validators {
-			if (acc+v.VotingPower)*3 <= total*2 {
-				keep[i] = true
-				acc += v.VotingPower
+		best, bestAcc := 0, int64(-1)
+		if n <= 16 {
+			for mask := 1; mask < 1<<uint(n); mask++ {
+				var acc int64
+				for i, v := range vals.Validators {
+					if mask&(1<<uint(i)) != 0 {
+						acc += v.VotingPower
+					}
+				}
+				if acc*3 <= total*2 && acc > bestAcc {
+					best, bestAcc = mask, acc
+				}
 			}
 		}
-		if acc == 0 {
+		if bestAcc <= 0 {
 			return f.lieCommit("commit-forged", h, arg)
 		}
 		return signCommit(chainID, vals, prev, canon.Round, id, base, real, func(i int) types.BlockIDFlag {
-			if keep[i] {
+			if best&(1<<uint(i)) != 0 {
 				return types.BlockIDFlagCommit
 			}
 			if arg%2 == 0 {
